@@ -200,4 +200,21 @@ theorem toList_length_drop {t : HashTab} (h : HashTab.WF t) (k : Bytes) :
     simp only [HashTab.drop, hg, hf]
     simp
 
+theorem freeNode_get (m : Mem) (s : Nat) (n : Node) (j : Nat) :
+    (freeNode m s n).get j = if j = s ∧ s < m.size then { n with live := false } else m.get j :=
+  Mem.get_put m s j { n with live := false }
+
+theorem freeNode_size (m : Mem) (s : Nat) (n : Node) : (freeNode m s n).size = m.size := by
+  simp [freeNode, Mem.size, Mem.put]
+
+theorem freeNode_freed (m : Mem) (s : Nat) (n : Node) : (freeNode m s n).freed = m.freed ++ [s] := by
+  simp [freeNode]
+
+theorem freeNode_blocks (m : Mem) (s : Nat) (n : Node) :
+    (freeNode m s n).blocks = m.blocks - attrBlocks n.attrs - dataBlocks n.data - 1 := by
+  simp [freeNode]
+
+theorem freeNode_liveBlocks (m : Mem) (s : Nat) (n : Node) :
+    (freeNode m s n).liveBlocks = (m.put s { n with live := false }).liveBlocks := rfl
+
 end Strophe.Store
